@@ -1,6 +1,120 @@
 import PdeVerif.Json
+import PdeVerif.Model.Controller
 namespace PdeVerif.Drv.C07
-open Lean PdeVerif
+open Lean PdeVerif PdeVerif.Interrupts PdeVerif.Controller
 
-def handlers : List (String × Handler) := []
+/-
+c07.run (also used by C08)
+{"mode":"Q"|"F", ["stepper":"exact","fuel":n,] "dt":x, "t_start":x, "t_end":x, "eps":x, "u0":x, "eq":"one"|"time"|"timeshift" (+"shift":x),
+ "trackers":[{"kind":"callback"|"storage"|"data",
+              "sched":{"kind":"constant","dt":x,"t_start":null|x}
+                     |{"kind":"logarithmic","dt_initial":x,"factor":x,"t_start":null|x}
+                     |{"kind":"fixed","interrupts":[x..]}
+                     |{"kind":"geometric","scale":x,"factor":x,"fuel":n}
+                     |{"kind":"oracle","answers":[x|"inf"..]},
+              "stops":[[call index,"S"|"F","msg"],..]}]}
+numbers x: "p/q" in mode Q, "b:<bits>" in mode F.
+answer: {"t_final","steps","state","initial","exit","stop_reason","successful","iters",
+         "trace":[[tracker,t,u]..], "trackers":[{"calls","times","frames","finalized","due"}..]}
+-/
+
+section
+variable {K : Type} [Add K] [Sub K] [Mul K] [Div K] [Neg K] [NatCast K] [IntCast K]
+variable [LT K] [DecidableLT K] [LE K] [DecidableLE K] [HasFloor K]
+
+def getOptK (getK : Json → Except String K) (j : Json) (k : String) : Except String (Option K) :=
+  match fldOpt j k with
+  | some .null | none => pure none
+  | some v => do pure (some (← getK v))
+
+def getInfK (getK : Json → Except String K) (j : Json) : Except String (Option K) :=
+  match j with
+  | .str "inf" => pure none
+  | v => do pure (some (← getK v))
+
+def parseSched (getK : Json → Except String K) (j : Json) : Except String (SchedSpec K) := do
+  let kind ← fldS j "kind"
+  match kind with
+  | "constant" => pure (.const (← getK (← fld j "dt")) (← getOptK getK j "t_start"))
+  | "logarithmic" =>
+    pure (.log (← getK (← fld j "dt_initial")) (← getK (← fld j "factor")) (← getOptK getK j "t_start"))
+  | "fixed" => pure (.fixed (← getL getK (← fld j "interrupts")))
+  | "geometric" => pure (.geom (← getK (← fld j "scale")) (← getK (← fld j "factor")) (← fldN j "fuel"))
+  | "oracle" => pure (.oracle (← getL (getInfK getK) (← fld j "answers")))
+  | _ => throw s!"unknown schedule kind {kind}"
+
+def parseStop (j : Json) : Except String (Nat × StopReq) := do
+  let a ← j.getArr?
+  match a.toList with
+  | [n, k, m] =>
+    let n ← getN n
+    let m ← getS m
+    match (← getS k) with
+    | "S" => pure (n, .stopIteration m)
+    | "F" => pure (n, .finished m)
+    | s => throw s!"bad stop kind {s}"
+  | _ => throw "bad stop entry"
+
+def parseTracker (getK : Json → Except String K) (j : Json) : Except String (TrackerSpec K K) := do
+  let kind ← (match (← fldS j "kind") with
+    | "callback" => pure Kind.callback
+    | "storage" => pure Kind.storage
+    | "data" => pure Kind.data
+    | s => throw s!"unknown tracker kind {s}")
+  let sched ← parseSched getK (← fld j "sched")
+  let stops ← getL parseStop (← fld j "stops")
+  pure { kind := kind, sched := sched, stopAt := fun n _ _ => stops.lookup n }
+
+def exitTag : Exit → String
+  | .final => "final"
+  | .stopped _ => "stopped"
+  | .finalStopped _ => "final-stopped"
+  | .fuel => "fuel"
+
+def isBroken : Sched K → Bool
+  | .broken => true
+  | _ => false
+
+def runJson (getK : Json → Except String K) (putK : K → Json) (j : Json) : Except String Json := do
+  let dt ← getK (← fld j "dt")
+  let tStart ← getK (← fld j "t_start")
+  let tEnd ← getK (← fld j "t_end")
+  let eps ← getK (← fld j "eps")
+  let u0 ← getK (← fld j "u0")
+  let eq ← fldS j "eq"
+  let step : K → K → K ← (match eq with
+    | "one" => pure (fun u _ => u + dt * ((1 : Nat) : K))
+    | "time" => pure (fun u t => u + dt * t)
+    | "timeshift" => do
+      let c ← getK (← fld j "shift")
+      pure (fun u t => u + dt * (t + c))
+    | s => throw s!"unknown equation {s}")
+  let specs ← getL (parseTracker getK) (← fld j "trackers")
+  let exact := (match fldOpt j "stepper" with | some (.str "exact") => true | _ => false)
+  -- exact steppers (ScipySolver): the compared state is that of u' = 1, `flow u t s = u + (s - t)`
+  let fuel : Nat ← (if exact then fldN j "fuel" else pure 0)
+  let r := if exact then
+      runExactSpec dt tStart tEnd eps (fun u t s => u + (s - t)) u0 specs fuel
+    else runSpec dt tStart tEnd eps step u0 specs
+  if r.trackers.any (fun tr => isBroken tr.sched) then throw "geometric search out of fuel"
+  let putO : Option K → Json := fun o => match o with | none => Json.str "inf" | some x => putK x
+  pure (Json.mkObj [
+    ("t_final", putK r.tFinal), ("steps", toJson r.steps), ("state", putK r.state),
+    ("initial", putK r.initial), ("exit", Json.str (exitTag r.exit)),
+    ("stop_reason", Json.str r.exit.reason), ("successful", toJson r.exit.successful),
+    ("iters", toJson r.iters),
+    ("trace", Json.arr (r.trace.map (fun e => Json.arr #[toJson e.1, putK e.2.1, putK e.2.2])).toArray),
+    ("trackers", Json.arr (r.trackers.map (fun tr => Json.mkObj [
+      ("calls", toJson tr.calls), ("times", Json.arr (tr.times.map putK).toArray),
+      ("frames", Json.arr (tr.frames.map putK).toArray), ("finalized", toJson tr.finalized),
+      ("due", putO tr.due)])).toArray)])
+
+end
+
+def run (j : Json) : Except String Json := do
+  let mode ← fldS j "mode"
+  if mode == "Q" then runJson (K := Rat) getQ jQ j
+  else runJson (K := Float) getF jF j
+
+def handlers : List (String × Handler) := [("c07.run", run)]
 end PdeVerif.Drv.C07
